@@ -81,9 +81,11 @@ impl StatusList2021 {
 
   /// Returns the status of the `index`-th entry, if it exists.
   pub fn get(&self, index: usize) -> Result<bool, StatusListError> {
-    (index < self.len())
-      .then_some(self.get_unchecked(index))
-      .ok_or(StatusListError::IndexOutOfBounds)
+    if index < self.len() {
+      Ok(self.get_unchecked(index))
+    } else {
+      Err(StatusListError::IndexOutOfBounds)
+    }
   }
 
   /// Sets the status of the `index`-th entry to `value`.
